@@ -32,7 +32,8 @@ def make(rng, variant, real=False):
             "ds_family": str(rng.choice(["chain", "chain", "random", "dup", "tight", "lattice"])),
             "stub_mode": str(rng.choice(["random", "adversarial", "adversarial", "needle", "stubborn", "identical", "lattice"]))}
     if real:
-        over.update(model="real", K=int(rng.integers(3, 9)), contraction=float(rng.choice([8, 32])), noise_var=1e-4)
+        over.update(model="real", K=int(rng.integers(8, 13)), contraction=float(rng.choice([8, 32])), noise_var=0.01, scale=1.0,
+                    ds_family="random", eps=0.3)
     case, order = runs.make_case(rng, variant, **over)
     case["max_rounds"] = 150
     return case, order
